@@ -6,7 +6,7 @@ from fractions import Fraction
 
 from common import standard_prologue, run_sharded, enc, dec, HX, DRV, VERIF
 from impcommon import (D, Conv, Rule, sx, opt, yq, split_fields, parse_import, canon_txn, txns_close, parse_proc_impl,
-                       parse_proc_model, bal_nonzero, fund_text, date_sx, rules_sx, rules_yaml, caps_table, group3)
+                       parse_proc_model, bal_nonzero, fund_text, date_sx, rules_sx, rules_yaml, caps_table, group3, sx_parse)
 
 CLAIM = {
     "technique": "Lean 4 theorems about an executable model of csv::import (after decoding) composed with the book-keeping "
@@ -35,13 +35,31 @@ CLAIM = {
              "for compute mode is shown by witness only. The inconsistent-conversion class is a genuine defect of the "
              "importer with respect to the acceptance clause (known finding F33: compute / price_of_secondary at rate 3 "
              "prints 16.666...667 EUR @ 3 USD against -50.00 USD, rejected by the real book-keeping; replayed on every run). "
+             "Cell decoders (okane's own code, no longer parameters): str_to_comma_decimal's parser (TryFrom<&str> for "
+             "expr::Amount = optional minus + winnow permutation of number and commodity, each followed by blanks, whole "
+             "input) and Template::from_str are modelled (Model/ImportCsvCells.lean). Proved for ALL texts: totality "
+             "(C16_cell_total, templateParse_total: no panic, no fuel, no cut; the repeat assertion is unreachable); "
+             "C16_cell_accepts_exactly (a cell is accepted iff it is an optional minus, then a C07-well-formed literal within "
+             "range and a commodity text in either order, each followed by optional blanks, nothing left; the decimal is "
+             "the one written with the sign flag toggled by the leading minus), C16_cell_minus_signs (value = unsigned "
+             "literal x (-1)^(minus signs written): --100.00 = 100.00, -$-1.46 = 1.46; scale = places written), "
+             "C16_cell_complete / C16_cell_reject; C16_amount_written and C16_credit_debit_written lift the sign clause "
+             "to the TEXT of the cell (asset: the number written, liability: its negation; credit +, debit -); "
+             "C16_template_accepts_exactly (maximal brace-free literal runs and {key} references with a valid key, nothing "
+             "else), C16_template_round_trip (parse(print(parse s)) = parse s, and print(parse s) = s unless a column "
+             "number has a leading zero - C16_template_print_id_false: {007} prints as {7}), C16_template_print_parse "
+             "(print then parse is the identity on canonical segment lists), C16_template_rejects (unbalanced braces; a "
+             "reference with an invalid key anywhere; the typed key errors never surface, every failure is InvalidTemplate). "
              "The model is tied to "
              "cli/src/import/csv.rs by running generated CSV x configuration cases through the real importer and diffing "
              "the transaction trees, and the property's statement (sign, counter-posting, rate placement, order, acceptance "
              "by the real report::process and final balance) is evaluated on the real output by a Python oracle that does "
              "not use the model."),
-    "note": "CSV/YAML decoding, chrono date parsing, the number parser and the regex engine are parameters of the model "
-            "(decoded by the real libraries in the harness); rust_decimal is modelled exactly inside 96 bits / 28 places; "
+    "note": "CSV/YAML decoding, chrono date parsing and the regex engine are parameters of the model (decoded by the real "
+            "libraries in the harness); number cells and templates are decoded by the MODEL (the driver no longer reads the "
+            "harness's decimal table; templates travel as text) and compared on their own in the csv-cells stream (real "
+            "parser reached through TryFrom<&str> for syntax::expr::Amount; Template::from_str is pub(crate) and is reached "
+            "through import::import with the field position replaced); rust_decimal is modelled exactly inside 96 bits / 28 places; "
             "the acceptance theorems are about the printed ledger alone (no commodity directive, hence no rounding in "
             "check_balance); with a declared precision okane also accepts conversions that agree after rounding.",
     "design_ref": "DESIGN.md section 6, C16; section 7, F19; section 10.4, F33",
@@ -53,7 +71,14 @@ THEOREMS = ["Okane.Import.C16_sign_credit_debit", "Okane.Import.C16_sign_amount"
             "Okane.Import.C16_accepts_zero_charge", "Okane.Import.C16_zero_charge_dropped", "Okane.Import.C16_row_ok",
             "Okane.Import.C16_accepts_conversion_rows", "Okane.Import.C16_conversion_iff",
             "Okane.Import.C16_conversion_necessary", "Okane.Import.C16_inconsistent_conversion_rejected",
-            "Okane.Import.C16_inexact_conversion_rejected"]
+            "Okane.Import.C16_inexact_conversion_rejected",
+            "Okane.Import.C16_cell_total", "Okane.Import.C16_cell_accepts_exactly", "Okane.Import.C16_cell_minus_signs",
+            "Okane.Import.C16_amount_written", "Okane.Import.C16_credit_debit_written",
+            "Okane.Import.C16_template_accepts_exactly", "Okane.Import.C16_template_round_trip",
+            "Okane.Import.C16_template_rejects", "Okane.Import.Cells.C16_cell_complete", "Okane.Import.Cells.C16_cell_reject",
+            "Okane.Import.Cells.C16_cell_value", "Okane.Import.Cells.templateParse_total",
+            "Okane.Import.Cells.C16_template_print_parse", "Okane.Import.Cells.C16_template_parse_canonical",
+            "Okane.Import.Cells.C16_template_print_id_false"]
 
 ACCOUNT_ASSET = "Assets:Bank"
 ACCOUNT_LIAB = "Liabilities:Card"
@@ -80,6 +105,7 @@ PAYEES = ["Card 1234 GROCER Migros", "Card 77 Coffee, \"Bar\"", "WIRE to savings
           "GROCER Coop", "Wire incoming", "振込 ヤマダ", "ATM withdrawal", "Card 9 Book Store"]
 CATEGORIES = ["Buy", "Fee", "Interest", "Transfer", ""]
 NOTES = ["", "  ", "ref 123", "gift; thanks", "second line"]
+BAD_TEMPLATES = ["{payee", "{0}", "{amount}", "{}", "x}", "{{note}}", "{ note}", "{Note}", "{1.5}", "{-1}", "{18446744073709551616}"]
 
 
 def fmt_date(d, f):
@@ -99,9 +125,22 @@ def next_date(rng, d):
     return (y, m, dd)
 
 
-def fmt_amount(rng, d, commodity, style=None):
-    """renders a decimal the way statements do; every variant is accepted by str_to_comma_decimal"""
-    style = style or rng.choice(["plain", "plain", "plain", "comma", "prefix", "suffix"])
+AMOUNT_STYLES = ["plain"] * 10 + ["comma", "comma", "prefix", "suffix", "prefix_inner", "prefix_sp", "suffix_tight", "uni_prefix",
+                                  "uni_suffix", "lead_blank", "trail_blank", "neg_space"]
+
+
+def fmt_amount(rng, d, commodity, style=None, under_minus=False):
+    """renders a decimal the way statements do; every variant is accepted by str_to_comma_decimal and means `d`
+    (`under_minus`: the text will be put behind a `-` written by a template, which rules out the styles that start with
+    `- `: `-- 5` is not a number)"""
+    style = style or rng.choice(AMOUNT_STYLES)
+    if d.neg and d.mant == 0 and style in ("prefix_inner", "lead_blank"):
+        # a NEGATIVE zero can only be written with the leading minus of the cell: the number token's own minus is
+        # dropped on a zero (`$-0.00` is +0, `-$0.00` and `-0.00` are -0)
+        style = "plain"
+    if d.neg and under_minus and style in ("prefix", "prefix_sp", "uni_prefix"):
+        # behind a template's minus the only other minus the decoder takes is the number token's own: `--$5` is not a number, `-$-5` is
+        style = "prefix_inner"
     s = str(d.mant).rjust(d.scale + 1, "0")
     ip, fp = (s, "") if d.scale == 0 else (s[:-d.scale], s[-d.scale:])
     if style == "comma" and len(ip) > 3:
@@ -110,8 +149,24 @@ def fmt_amount(rng, d, commodity, style=None):
     sign = "-" if d.neg else ""
     if style == "prefix":
         return sign + "$" + body
+    if style == "prefix_inner":          # $-1.46: the sign belongs to the number token
+        return "$" + sign + body
+    if style == "prefix_sp":
+        return sign + "$ " + body
     if style == "suffix":
         return sign + body + " " + commodity
+    if style == "suffix_tight":
+        return sign + body + commodity
+    if style == "uni_prefix":
+        return sign + "\u20ac" + body
+    if style == "uni_suffix":
+        return sign + body + " \u5186"
+    if style == "lead_blank":
+        return " " + sign + body
+    if style == "trail_blank":
+        return sign + body + rng.choice([" ", "  ", "\t", " \t "])
+    if style == "neg_space" and d.neg and not under_minus:
+        return "- " + body
     return sign + body
 
 
@@ -140,8 +195,20 @@ def make_case(rng, sw, nrows, cid):
     c.row_order = g("row_order", ["o2n", "n2o"])
     c.pos_mode = g("pos_mode", ["index", "label", "mixed"])
     c.payee_tpl = g("payee_tpl", [None, None, None, "named", "indexed"])
+    # the amount column reached through a template: `{k}` (identity) or `-{k}` (the statement lists the negated figure)
+    c.amount_tpl = g("amount_tpl", [None, None, None, "neg", "neg", "id"]) if c.value_mode == "amount" else None
     c.delim = g("delim", DELIMS)
-    c.skip_head = g("skip_head", [0, 0, 1, 2])
+    c.skip_head = g("skip_head", [0, 0, 1, 2, 3])
+    # the skipped preamble: exactly `skip.head` PHYSICAL lines, empty and blank ones included (`BufRead::read_line` N times);
+    # an importer that skips more or fewer lines loses the header or the first record (the oracle counts the records)
+    c.preamble = []
+    for i in range(c.skip_head):
+        c.preamble.append(rng.choice(["", "", "   ", "Statement export, line %d; not CSV \"at all" % i,
+                                      "Statement export, line %d; not CSV \"at all" % i, "a,b,c,d,e,f,g,h,i,j,k,l,m,n,o,p"]))
+    if c.skip_head >= 2 and rng.random() < 0.3:
+        c.preamble[0] = ""          # an empty first line
+    if c.skip_head == 3 and rng.random() < 0.3:
+        c.preamble = ["Account statement", "generated at year end", ""]
     c.date_fmt = g("date_fmt", DATE_FMTS)
     c.has_category = c.payee_tpl == "named" or rng.random() < 0.4
     if c.payee_tpl == "named":
@@ -190,12 +257,17 @@ def make_case(rng, sw, nrows, cid):
             continue
         mode = c.pos_mode if c.pos_mode != "mixed" else rng.choice(["index", "label"])
         c.pos[k] = ("index", cols.index(k) + 1) if mode == "index" else ("label", c.labels[k])
+    # templates travel as TEXT: the real importer parses them with Template::from_str, the model with Cells.parseTemplate
     if c.payee_tpl == "named":
-        c.pos["payee"] = ("template", "{category} - {note}", [("named", "category"), ("lit", " - "), ("named", "note")])
+        c.pos["payee"] = ("template", "{category} - {note}")
     elif c.payee_tpl == "indexed":
         i = cols.index("payee")
         j = cols.index("date")
-        c.pos["payee"] = ("template", "{%d} [{%d}]" % (i + 1, j + 1), [("idx", i), ("lit", " ["), ("idx", j), ("lit", "]")])
+        c.pos["payee"] = ("template", "{%d} [{%d}]" % (i + 1, j + 1))
+    if c.amount_tpl:
+        i = cols.index("amount")
+        c.pos["amount"] = ("template", ("-{%d}" if c.amount_tpl == "neg" else "{%s}") % (
+            (i + 1) if c.amount_tpl == "neg" else rng.choice(["%d" % (i + 1), "%03d" % (i + 1)])))
     # ---- rules
     rules = []
     if rng.random() < 0.7:
@@ -238,6 +310,10 @@ def make_case(rng, sw, nrows, cid):
         elif scale == 1:
             cents = (cents // 10) * 10
         neg_zero = cents == 0 and rng.random() < 0.5
+        if cents == 0 and c.amount_tpl == "neg":
+            # `-{k}` over a zero: the cell is written unsigned, the template's minus makes it a negative zero
+            # (negated once more for a liability account)
+            neg_zero = c.account_type == "asset"
         a = D(cents < 0 or neg_zero, abs(cents) // (10 ** (2 - scale)), scale)
         r["a"] = a
         bal[com] += cents
@@ -313,8 +389,7 @@ def render(rng, c):
     # ---------- CSV
     nl = "\r\n" if c.crlf else "\n"
     lines = []
-    for i in range(c.skip_head):
-        lines.append("Statement export, line %d; not CSV \"at all" % i)
+    lines.extend(c.preamble)
     lines.append(c.delim.join(csv_cell(rng, c.labels[k], c.delim) for k in c.cols))
     file_rows = list(c.rows) if c.row_order == "o2n" else list(reversed(c.rows))
     body = []
@@ -331,7 +406,12 @@ def render(rng, c):
                 v = r["note"]
             elif k == "amount":
                 shown = r["a"] if c.account_type == "asset" else r["a"].negate()
-                v = fmt_amount(rng, shown, r["commodity"])
+                if c.amount_tpl == "neg":
+                    # the generator KNOWS the amount it writes: the column lists -shown, the template `-{k}` puts a
+                    # minus in front, so the importer must come back with `shown` (e.g. cell `-100.00` -> `--100.00` = +100.00)
+                    v = fmt_amount(rng, shown.negate(), r["commodity"], under_minus=True)
+                else:
+                    v = fmt_amount(rng, shown, r["commodity"])
             elif k == "credit":
                 v = fmt_amount(rng, D(False, r["a"].mant, r["a"].scale), r["commodity"]) if not r["a"].neg else ""
             elif k == "debit":
@@ -389,9 +469,7 @@ def render(rng, c):
             fsx.append("(%s (label %s))" % (k, enc(p[1])))
         else:
             y.append("    %s:\n      template: %s\n" % (k, yq(p[1])))
-            segs = " ".join("(lit %s)" % enc(s[1]) if s[0] == "lit" else "(named %s)" % s[1] if s[0] == "named"
-                            else "(idx %d)" % s[1] for s in p[2])
-            fsx.append("(%s (template %s))" % (k, segs))
+            fsx.append("(%s (tpl %s))" % (k, enc(p[1])))
     y.append(rules_yaml(c.rules))
     cfg_sx = "(cfg %s %s %s %s %s %s (fields %s) %s)" % (
         enc(c.account), c.account_type, sx(opt(c.operator, enc)), enc(c.primary), c.default_conv.sx(), c.row_order,
@@ -514,6 +592,301 @@ def drv_line(c, cfg_sx, hx_fields, fund_sx):
         c.id, cfg_sx, cells, hx_fields.get("dates", "()"), hx_fields.get("decs", "()"), caps, fund_sx)
 
 
+# ------------------------------------------------------------------------------------------------ csv-cells stream
+# okane's own cell decoders on their own: `str_to_comma_decimal` (number cells) and `Template::from_str` (+ render),
+# real code (hx c16 cells) vs model (drv c16 cells) vs an independent reference written here from the statement.
+
+NUM_SPECIALS = ["1,234.50", "$12.50", "12.50 USD", "-$1.46", "$-1.46", "--100.00", "---1", "- 5", "5 -", "USD", " ", "  ", "\t",
+                "1 2", "1.2.3", "12,50", "1,23", "0,123", ",123", "1234,567", "1,234,567.89", ".5", "5.", ".", "-", "--", "-.",
+                "€ 5", "5 円", "5円", "　5", "5　", "5\tEUR ", "\t5", "5\t", "-0", "--0", "-0.00", "0", "00012",
+                " 5", "$ 5 $", "5$", "$5$", "$", "$ ", "$-", "$ -5", "-$-5", "- $5", "-$ 5", "5 USD EUR", "USD 5 EUR", "5USD",
+                "USD5", "US D5", "5-", "5--", "5 - 3", "(5)", "+5", "5+", "1e3", "0x10", "5;", "5 ; x", "\"5\"", "'5'", "5%", "5 %",
+                "1,000", "1,000,000", "1,000,00", "1,0000", "10,000", "100,000", "1000,000", "1,000.", "1,000.0,0",
+                "79228162514264337593543950335", "79228162514264337593543950336", "-79228162514264337593543950335",
+                "1" + "0" * 40, "0." + "0" * 27 + "1", "0." + "0" * 28 + "1", "0." + "0" * 30, "7.9228162514264337593543950335",
+                "170141183460469231731687303715884105727", "170141183460469231731687303715884105728",
+                "1,234.50 USD", "USD 1,234.50", "USD\t-1,234.50\t", "-1,234,567.8 ¥", "£-0.5", "5  ", " 5", "5\n", "5\r"]
+
+
+def ref_literal(tok):
+    """the statement of C07 (optional minus, digits ungrouped or grouped in complete groups of three after a leading
+    group of 1-3, at most one point, at least one digit; 28 places, 96 bits) -> (neg, mant, scale, fmt) or None"""
+    import re
+    m = re.fullmatch(r"(-?)((?:[0-9]+|[0-9]{1,3}(?:,[0-9]{3})+)?)(?:\.([0-9]*))?", tok)
+    if not m:
+        return None
+    sign, ip, fp = m.group(1), m.group(2), m.group(3) or ""
+    digits = ip.replace(",", "") + fp
+    if not digits:
+        return None
+    mant = int(digits)
+    if len(fp) > 28 or mant >= 2 ** 96:
+        return None
+    fmt = "c" if "," in ip else ("p" if len(ip) >= 4 else "n")
+    return (sign == "-" and mant != 0, mant, len(fp), fmt)
+
+
+NON_COMMODITY = set(" \t\r\n0123456789.,;:?!-+*/^&|=<>[](){}@")
+
+
+def ref_number_cell(cell):
+    """what a number cell means (independent of the model): optional minus, then number [blanks] commodity [blanks]
+    or commodity [blanks] number [blanks], nothing else; value = the literal, sign flipped once per leading minus.
+    -> None (empty) | "err" | (neg_flag, mant, scale, fmt, commodity)"""
+    if cell == "":
+        return None
+    flip = cell.startswith("-")
+    body = cell[1:] if flip else cell
+
+    def blanks(t, i):
+        while i < len(t) and t[i] in " \t":
+            i += 1
+        return i
+
+    def token(t, i):
+        j = i + 1 if t[i:i + 1] == "-" else i
+        k = j
+        while k < len(t) and t[k] in "0123456789,.":
+            k += 1
+        return (t[i:k], k) if k > j else None
+
+    def com(t, i):
+        j = i
+        while j < len(t) and t[j] not in NON_COMMODITY:
+            j += 1
+        return t[i:j], j
+    tk = token(body, 0)
+    lit = ref_literal(tk[0]) if tk else None
+    if lit is not None:                       # number first
+        i = blanks(body, tk[1])
+        c, i = com(body, i)
+        i = blanks(body, i)
+    else:                                      # commodity first
+        c, i = com(body, 0)
+        i = blanks(body, i)
+        tk = token(body, i) if i < len(body) else None
+        lit = ref_literal(tk[0]) if tk else None
+        if lit is None:
+            return "err"
+        i = blanks(body, tk[1])
+    if i != len(body):
+        return "err"
+    neg, mant, scale, fmt = lit
+    return (neg != flip, mant, scale, fmt, c)
+
+
+TPL_NAMED = ["date", "payee", "category", "note", "commodity", "secondary_commodity"]
+TPL_ROWS = [["h%d" % i for i in range(1, 10)],
+            ["}2024-01-02{", "7", "}p{", "}c{", "}n{", "}m{", "}s{", "}8{", "}9{"],
+            ["}2024-01-03{", "8", "}P{", "}C{", "}N{", "}M{", "}S{", "}8x{", "}9x{"]]
+TPL_FIELDS = [("date", 1), ("amount", 2), ("payee", 3), ("category", 4), ("note", 5), ("commodity", 6), ("secondary_commodity", 7)]
+TPL_YAML = ("path: statement\nencoding: UTF-8\naccount: Assets:Bank\naccount_type: asset\ncommodity: USD\nformat:\n"
+            "  date: \"}%Y-%m-%d{\"\n  fields:\n" + "".join("    %s: %d\n" % kv for kv in TPL_FIELDS))
+TPL_SPECIALS = ["{payee}", "{3}", "{0}", "{00}", "{}", "{{", "}}", "{", "}", "{payee", "payee}", "a{b}c", "a{note}c", "", " ", "{007}",
+                "{18446744073709551616}", "{18446744073709551615}", "{99999999999999999999999999}", "{amount}", "{credit}", "{debit}",
+                "{balance}", "{rate}", "{charge}", "{secondary_amount}", "{unknown}", "x{1}{2}y", "{secondary_commodity}",
+                "{commodity}{payee}", "{10}", "{9}", "{date} {category}", "{category} - {note}", "{{payee}}", "{pay{ee}}", "{payee}}",
+                "{ payee}", "{payee }", "{Payee}", "{PAYEE}", "{1 }", "{ 1}", "{+1}", "{-1}", "{1.0}", "{1,2}", "{１}", "{١}",
+                "{1}{1}{1}", "振込 {note} €", "{note}\t{3}", "a\nb", "%s", "{0x1}", "{1e1}", "{note}{", "{note}}", "}{note}",
+                "{note}{payee", "{secondary commodity}", "{secondary-commodity}", "{secondarycommodity}"]
+
+
+def ref_template(t):
+    """segments of a template (independent of the model): `{key}` references and runs of other text; key = a positive
+    decimal column number (fits usize) or one of six field names; anything else is malformed -> list or None"""
+    segs = []
+    i = 0
+    while i < len(t):
+        if t[i] == "}":
+            return None
+        if t[i] == "{":
+            j = i + 1
+            while j < len(t) and t[j] not in "{}":
+                j += 1
+            if j == i + 1 or j >= len(t) or t[j] != "}":
+                return None
+            key = t[i + 1:j]
+            if all(ch in "0123456789" for ch in key):
+                v = int(key)
+                if v == 0 or v > 2 ** 64 - 1:
+                    return None
+                segs.append(("idx", v - 1))
+            elif key in TPL_NAMED:
+                segs.append(("named", key))
+            else:
+                return None
+            i = j + 1
+        else:
+            j = i
+            while j < len(t) and t[j] not in "{}":
+                j += 1
+            segs.append(("lit", t[i:j]))
+            i = j
+    return segs
+
+
+def ref_template_run(t, key):
+    """expected `T` of `hx c16 cells` for template `t` at field `key` over the fixture"""
+    segs = ref_template(t)
+    if segs is None:
+        return "(err TemplateParseFailed)"
+    col = dict(TPL_FIELDS)
+    outs = []
+    for rec in TPL_ROWS[1:]:
+        parts = []
+        for kind, v in segs:
+            if kind == "lit":
+                parts.append(v)
+            elif kind == "named":
+                if v == key:
+                    return "(err TemplateRenderFailed)"
+                parts.append(rec[col[v] - 1])
+            else:
+                if v >= len(rec):
+                    return "(err TemplateRenderFailed)"
+                parts.append(rec[v])
+        outs.append(enc("".join(parts)))
+    return "(ok %s)" % " ".join(outs)
+
+
+def _product_texts(alphabet, maxlen):
+    for n in range(1, maxlen + 1):
+        for tup in itertools.product(alphabet, repeat=n):
+            yield "".join(tup)
+
+
+def cell_cases(chk, main_cells):
+    rng = chk.rng
+    nums = list(NUM_SPECIALS)
+    nums += list(_product_texts("1,.- $", 5 if chk.tier == "quick" else 6))
+    nums += list(_product_texts(["0", "12", "\t", "€", "U", "-", ".", ","], 3 if chk.tier == "quick" else 4))
+    wide = list("0123456789,.- \t$USD") + ["€", "円", "　", ";", "+", "(", ")", "{", "}", "@", "\"", "'", "%", " ", "e"]
+    for _ in range(3000 if chk.tier == "quick" else 60000):
+        if rng.random() < 0.5:
+            # structured: what statements write, then perturbed
+            d = D(rng.random() < 0.4, rng.choice([0, 5, 146, 1250, 123450, 99999999, rng.randint(0, 10 ** rng.randint(1, 30))]),
+                  rng.choice([0, 0, 1, 2, 2, 3, 8, 28, 29]))
+            t = fmt_amount(rng, d, rng.choice(["USD", "CHF", "円", "$", "US$", "E-U", "U S"]))
+            if rng.random() < 0.3:
+                t = "-" + t
+            if rng.random() < 0.4 and t:
+                i = rng.randrange(len(t) + 1)
+                t = t[:i] + rng.choice(wide) + t[i if rng.random() < 0.5 else i + 1:]
+            nums.append(t)
+        else:
+            nums.append("".join(rng.choice(wide) for _ in range(rng.randint(1, 12))))
+    nums += sorted(main_cells)
+    tpls = list(TPL_SPECIALS)
+    tpls += list(_product_texts("{}a10", 5 if chk.tier == "quick" else 6))
+    toks = ["{", "}", "payee", "note", "x", "3", "0", " "]
+    tpls += ["".join(t) for n in range(1, 5 if chk.tier == "quick" else 6) for t in itertools.product(toks, repeat=n)]
+    pieces = ["{%s}" % k for k in TPL_NAMED] + ["{%d}" % i for i in range(0, 12)] + ["{", "}", "{}", " - ", "a", "振", "\t", "{amount}",
+                                                                                     "{01}", "payee", "1", "[", "]"]
+    for _ in range(1500 if chk.tier == "quick" else 30000):
+        tpls.append("".join(rng.choice(pieces) for _ in range(rng.randint(1, 6))))
+
+    def uniq(xs):
+        seen, out = set(), []
+        for x in xs:
+            if x not in seen and "\x00" not in x:
+                seen.add(x)
+                out.append(x)
+        return out
+    return uniq(nums), uniq(tpls)
+
+
+def run_cells(chk, main_cells):
+    nums, tpls = cell_cases(chk, main_cells)
+    cells_sx = "(ok " + " ".join("(" + " ".join(enc(c) for c in r) + ")" for r in TPL_ROWS) + ")"
+    dates_sx = "((%s (d 2024 1 2)) (%s (d 2024 1 3)))" % (enc(TPL_ROWS[1][0]), enc(TPL_ROWS[2][0]))
+    fields_sx = "(" + " ".join("(%s %d)" % kv for kv in TPL_FIELDS) + ")"
+    src = "".join(",".join(r) + "\n" for r in TPL_ROWS)
+    keys = "payee,commodity"
+    hl = ["n%d num=%s" % (i, enc(c)) for i, c in enumerate(nums)]
+    dl = list(hl)
+    hl += ["t%d tpl=%s cfg=%s src=%s keys=%s" % (i, enc(t), enc(TPL_YAML), enc(src), keys) for i, t in enumerate(tpls)]
+    dl += ["t%d tpl=%s cells=%s dates=%s fields=%s keys=%s" % (i, enc(t), cells_sx, dates_sx, fields_sx, enc(keys))
+           for i, t in enumerate(tpls)]
+    impl = run_sharded(HX, ["c16", "cells"], hl)
+    model = run_sharded(DRV, ["c16", "cells"], dl)
+    chk.streams["csv-cells"] = len(hl)
+    chk.streams["csv-cells:numbers"] = len(nums)
+    chk.streams["csv-cells:templates"] = len(tpls)
+    for i, cell in enumerate(nums):
+        il, ml = impl[i], model[i]
+        ir = il.split(" num=", 1)[1] if " num=" in il else il
+        mr = ml.split(" num=", 1)[1] if " num=" in ml else ml
+        chk.case(("num", cell), nontrivial=True)
+        chk.traces += 1
+        chk.count("cell:" + ir.split(" ")[0].strip("()"))
+        replay = {"stream": "c16 csv-cells (number cell)", "cell": cell, "impl": ir, "model": mr,
+                  "rerun": "printf '%%s\\n' 'n num=%s' | %s c16 cells" % (enc(cell), HX)}
+        # oracle: the number written (reference decoder above), independent of the model
+        want = ref_number_cell(cell)
+        bad = None
+        if want is None:
+            if ir != "(none)":
+                bad = "an empty cell must decode to nothing"
+        elif want == "err":
+            if not ir.startswith("(err"):
+                bad = "the cell is not a number (optional minus, number and commodity in either order) but is decoded as %s" % ir
+        else:
+            neg, mant, scale, fmt, com = want
+            try:
+                t = sx_parse(ir)
+                got = (t[1][1] == "1", int(t[1][2]), int(t[1][3]))
+            except Exception:  # noqa
+                got = None
+            if got is None:
+                bad = "the cell writes the number %s%s (scale %d) but the importer rejects it: %s" % (
+                    "-" if neg else "", mant, scale, ir)
+            elif frac_of(got) != frac_of((neg, mant, scale)) or got[2] != scale:
+                bad = "the cell writes %s with %d places, the importer decodes %s with %d places" % (
+                    frac_of((neg, mant, scale)), scale, frac_of(got), got[2])
+        if bad:
+            chk.oracle_failures += 1
+            chk.violation("CSV number cell %r breaks C16's amount clause: %s" % (cell, bad), dict(replay, expected=repr(want)))
+            continue
+        if ir != mr:
+            chk.disagreements += 1
+            chk.violation("model (Cells.cellAmount) and str_to_comma_decimal's parser disagree on the cell %r" % cell,
+                          dict(replay, drv_case=dl[i]), no_failing_input=True, tag="corr")
+    off = len(nums)
+    for i, t in enumerate(tpls):
+        il, ml = impl[off + i], model[off + i]
+        _, f = split_fields(il)
+        _, mf = split_fields(ml)
+        chk.case(("tpl", t), nontrivial=True)
+        chk.traces += 1
+        replay = {"stream": "c16 csv-cells (template)", "template": t, "impl": il, "model": ml,
+                  "rerun": "printf '%%s\\n' '%s' | %s c16 cells" % (hl[off + i], HX)}
+        ok = True
+        for k in keys.split(","):
+            want = ref_template_run(t, k)
+            got = f.get(k, "(missing)")
+            if k == "payee":
+                chk.count("template:" + (got.split(" ")[0].strip("()") + (":" + got.split(" ")[1].strip("()") if got.startswith("(err") else "")))
+            if got != want:
+                ok = False
+                chk.oracle_failures += 1
+                chk.violation("template %r at field %s: the importer gives %s, the template means %s" % (t, k, got, want),
+                              dict(replay, expected=want, field=k))
+                break
+        if not ok:
+            continue
+        if any(f.get(k) != mf.get(k) for k in keys.split(",")):
+            chk.disagreements += 1
+            chk.violation("model (Cells.parseTemplate + renderTemplate) and Template::from_str/render disagree on %r" % t,
+                          dict(replay, drv_case=dl[off + i]), no_failing_input=True, tag="corr")
+    chk.sample({"csv-cells": [(nums[j], impl[j]) for j in (0, 5, len(nums) // 2)] +
+                [(tpls[j], impl[off + j]) for j in (0, len(tpls) // 2)]})
+
+
+def frac_of(t):
+    v = Fraction(t[1], 10 ** t[2])
+    return -v if t[0] else v
+
+
 SWITCHES = ["value_mode", "has_commodity", "has_conv", "has_charge", "has_note", "has_balance", "account_type", "row_order"]
 SWITCH_VALUES = {"value_mode": ["amount", "credit_debit"], "has_commodity": [False, True], "has_conv": [False, True],
                  "has_charge": [False, True], "has_note": [False, True], "has_balance": [False, True],
@@ -549,7 +922,7 @@ def malformed_cases(chk):
     n = 40 if chk.tier == "quick" else 600
     for i in range(n):
         c = make_case(rng, {"charges": True}, rng.randint(1, 4), "m%d" % i)
-        kind = rng.choice(["short", "baddate", "badnum", "nolabel", "noop", "selfref", "tplref", "samecom", "norate", "emptycd"])
+        kind = rng.choice(["short", "baddate", "badnum", "nolabel", "noop", "selfref", "tplref", "badtpl", "samecom", "norate", "emptycd"])
         c.mal = kind
         out.append(c)
     return out
@@ -580,13 +953,20 @@ def apply_malformation(rng, c, yaml, text, cfg_sx):
         olds = "    payee: %s\n" % (old[1] if old[0] == "index" else yq(old[1]))
         yaml = yaml.replace(olds, "    payee:\n      template: \"{payee}!\"\n", 1)
         oldsx = "(payee (index %d))" % old[1] if old[0] == "index" else "(payee (label %s))" % enc(old[1])
-        cfg_sx = cfg_sx.replace(oldsx, "(payee (template (named payee) (lit %s)))" % enc("!"), 1)
+        cfg_sx = cfg_sx.replace(oldsx, "(payee (tpl %s))" % enc("{payee}!"), 1)
     elif kind == "tplref" and not c.payee_tpl:
         old = c.pos["payee"]
         olds = "    payee: %s\n" % (old[1] if old[0] == "index" else yq(old[1]))
         yaml = yaml.replace(olds, "    payee:\n      template: \"{commodity}{99}\"\n", 1)
         oldsx = "(payee (index %d))" % old[1] if old[0] == "index" else "(payee (label %s))" % enc(old[1])
-        cfg_sx = cfg_sx.replace(oldsx, "(payee (template (named commodity) (idx 98)))", 1)
+        cfg_sx = cfg_sx.replace(oldsx, "(payee (tpl %s))" % enc("{commodity}{99}"), 1)
+    elif kind == "badtpl" and not c.payee_tpl:
+        bad = rng.choice(BAD_TEMPLATES)
+        old = c.pos["payee"]
+        olds = "    payee: %s\n" % (old[1] if old[0] == "index" else yq(old[1]))
+        yaml = yaml.replace(olds, "    payee:\n      template: %s\n" % yq(bad), 1)
+        oldsx = "(payee (index %d))" % old[1] if old[0] == "index" else "(payee (label %s))" % enc(old[1])
+        cfg_sx = cfg_sx.replace(oldsx, "(payee (tpl %s))" % enc(bad), 1)
     return yaml, text, cfg_sx
 
 
@@ -594,14 +974,20 @@ def run(chk):
     chk.rule = ("generated CSV statements x importer configurations: layout switches (amount vs credit/debit, commodity "
                 "column, rate + secondary amount/commodity columns with extract/compute x price_of_primary/secondary, "
                 "charge, note, balance, account type, row order) as a full cross product x 3 rows, plus random cases "
-                "(columns by index/label/template, delimiter, skipped head lines, date format, number styles 1,234.50 / "
-                "$12.50 / 12.50 USD, zero and negative-zero amounts, balances through zero, rewrite rules with captures, "
-                "OR lists and conversions); a case is non-trivial when it has at least one dated record; distinct = "
-                "distinct (configuration, CSV) texts")
+                "(columns by index/label/template, amount reached through `{k}` / negating `-{k}` templates with the column "
+                "listing the negated figure, delimiter, 0-3 skipped head lines some of them empty or blank, date format, "
+                "number styles 1,234.50 / $12.50 / $-12.50 / $ 12.50 / 12.50 USD / 12.50USD / euro and yen signs / leading and "
+                "trailing blanks and tabs / `- 12.50`, zero and negative-zero amounts, balances through zero, rewrite rules "
+                "with captures, OR lists and conversions); a case is non-trivial when it has at least one dated record; "
+                "distinct = distinct (configuration, CSV) texts. Stream csv-cells: number cells and templates on their own - "
+                "hand-picked corner cases, every text over small alphabets up to length 5 (6 thorough), random structured and "
+                "unstructured texts, and every distinct cell of the main stream; each one is decoded by the real parser, by the "
+                "model and by an independent Python reference of the statement")
     chk.assumptions = [
-        "CSV and YAML decoding (csv, serde_yaml), chrono date parsing, the number parser behind str_to_comma_decimal and the "
-        "regex engine are parameters of the model: the harness decodes with the real libraries and hands cells, dates and "
-        "decimals to the model driver; regex matches are computed with Python's re on patterns in the common subset",
+        "CSV and YAML decoding (csv, serde_yaml), chrono date parsing and the regex engine are parameters of the model: the "
+        "harness decodes with the real libraries and hands cells and dates to the model driver; regex matches are computed "
+        "with Python's re on patterns in the common subset; number cells and templates are decoded by the model itself",
+        "usize is 64 bits (template column numbers above 2^64-1 are rejected)",
         "rust_decimal arithmetic is modelled exactly inside 96 bits / 28 places; inexact divisions are compared with a relative tolerance of 1e-18",
         "C16_accepts is proved for rows without conversion; acceptance with exact conversions is checked on the real code only",
     ]
@@ -668,6 +1054,10 @@ def run(chk):
                 chk.count("%s=%s" % (k, getattr(c, k)))
             chk.count("pos_mode=%s" % c.pos_mode)
             chk.count("payee_tpl=%s" % c.payee_tpl)
+            chk.count("amount_tpl=%s" % c.amount_tpl)
+            chk.count("skip_head=%d%s" % (c.skip_head, "+empty-lines" if any(l.strip() == "" for l in c.preamble) else ""))
+            if c.skip_head and any(l == "" for l in c.preamble) and c.pos_mode == "index":
+                chk.count("skip_head:empty-line+index-layout")
             chk.count("rows=%d" % min(len(c.rows), 10))
             # ---- property oracle on the implementation's output (independent of the model)
             msgs = oracle(c, ist if ist == "ok" else "%s %s" % (ist, itx), itx if ist == "ok" else [], iproc, bool(fund))
@@ -708,6 +1098,17 @@ def run(chk):
             chk.disagreements += 1
             chk.violation("model and implementation of the CSV importer disagree (property oracle holds on this input)",
                           dict(replay, stream="c16 csv", drv_case=dline), no_failing_input=True, tag="corr")
+    # ---------------- csv-cells: the cell decoders on their own (every distinct cell of the main stream included)
+    main_cells = set()
+    for f in impl_fields:
+        try:
+            t = sx_parse(f.get("cells", "(err)"))
+            for rec in t[2:]:
+                for cell in rec:
+                    main_cells.add(dec(cell))
+        except Exception:  # noqa
+            pass
+    run_cells(chk, main_cells)
     for i in (0, len(cases) // 2, len(cases) - 1):
         c, yaml, text, cfg_sx, fund, fund_sx = meta[i]
         chk.sample({"config_yaml": yaml, "csv": text, "impl_import": impl_fields[i].get("import", "")[:600],
